@@ -33,7 +33,7 @@ CHECKS = {
          "6/C10"),
  "C11": ("exploration",
          "exhaustive enumeration of output lengths x independent per-format decoders (round trip), plus proptest-generated multi-block programs",
-         "Every single-block output length 0..4096 bits (quick: 0..520 and all boundary residues) with random, all-ones and all-zeros content is formatted in 19 format spellings and decoded by an independent decoder per format; multi-block outputs are sampled. Within the enumerated lengths the bit-carrying behaviour of each format is decided; contents are sampled.",
+         "Every single-block output length 0..4096 bits (quick: 0..520 and all boundary residues) with random, all-ones and all-zeros content is formatted in 19 format spellings and decoded by an independent decoder per format; multi-block outputs are sampled, and each sampled program is also written through the command-line driver with three output groups in one invocation, every file decoded by its own format and parameters. Within the enumerated lengths the bit-carrying behaviour of each format is decided; contents are sampled.",
          "Decoders written from each format's public definition; written ranges may start at any bit offset (banks with 1/2/4-bit addresses): a format has to widen a range to its own granule; outputs above 4096 bits (e.g. 16-bit Intel HEX address wrap) not explored.",
          "6/C11"),
  "C06": ("exploration",
